@@ -51,6 +51,10 @@ pub enum TOp {
     Publish { slot: u8, content: u8 },
     Withdraw { slot: u8 },
     Read,
+    /// a child of `ca0` that lives elsewhere (identity key held by the harness) asks what it is
+    /// entitled to: a signed RFC 6492 list request handled on a request thread, as the HTTP
+    /// workers do for remote children (updates the parent's record of the child's last exchange)
+    RemoteChildList { child: u8 },
     /// queues the snapshot task (snapshots of all entities; the write-ahead log of the repository content is truncated)
     Snapshot,
     /// the spare CA `ca3` (no parent, nothing published) exists to be deleted while others use it
@@ -86,6 +90,7 @@ fn top() -> impl Strategy<Value = TOp> {
         2 => (0u8..6).prop_map(|slot| TOp::Withdraw { slot }),
         2 => Just(TOp::Read),
         2 => Just(TOp::Snapshot),
+        4 => (0u8..2).prop_map(|child| TOp::RemoteChildList { child }),
         2 => Just(TOp::SpareUpdateId),
         2 => Just(TOp::SpareRead),
         3 => Just(TOp::SpareDelete),
@@ -93,6 +98,28 @@ fn top() -> impl Strategy<Value = TOp> {
 }
 
 pub const SPARE: &str = "ca3";
+pub const REMOTE_CHILDREN: [&str; 2] = ["rc0", "rc1"];
+/// identity keys of the remote children of the current case
+static REMOTE_IDS: std::sync::Mutex<Vec<rpki::crypto::KeyIdentifier>> = std::sync::Mutex::new(Vec::new());
+
+fn remote_child_list(w: &World, child: u8) -> Result<(), String> {
+    use rpki::ca::provisioning;
+    let i = child as usize % REMOTE_CHILDREN.len();
+    let key = REMOTE_IDS.lock().unwrap_or_else(|e| e.into_inner()).get(i).cloned().ok_or("no remote child identity")?;
+    let s = rpki::ca::idexchange::SenderHandle::from_str(REMOTE_CHILDREN[i]).map_err(|e| e.to_string())?;
+    let r = rpki::ca::idexchange::RecipientHandle::from_str(CAS[0]).map_err(|e| e.to_string())?;
+    let cms = w.rt.signer().create_rfc6492_cms(provisioning::Message::list(s, r), &key).map_err(|e| e.to_string())?;
+    let ca = rpki::ca::idexchange::CaHandle::from_str(CAS[0]).unwrap();
+    let reply = w.cam().rfc6492(&ca, cms.to_bytes(), Some("kvh".into()), &w.actor, &w.rt).map_err(|e| e.to_string())?;
+    // the reply is a list response, not an error response
+    let parent = w.cam().get_ca(&ca).map_err(|e| e.to_string())?;
+    let cms = provisioning::ProvisioningCms::decode(&reply).map_err(|e| format!("reply does not decode: {e}"))?;
+    cms.validate(&parent.id_cert().public_key).map_err(|e| format!("reply does not validate: {e}"))?;
+    match cms.into_message().into_payload() {
+        provisioning::Payload::ListResponse(_) => Ok(()),
+        _ => Err("answered with something else than a list response".to_string()),
+    }
+}
 
 /// A request to the spare CA may find it deleted: that is the answer of a serial order in which the deletion came first.
 pub fn spare_gone(e: &str) -> bool {
@@ -246,6 +273,7 @@ fn run_thread(w: &World, t: usize, ops: &[TOp], stop: &AtomicBool) -> Done {
                 }
             }
             TOp::Snapshot => w.schedule(krill::server::mq::Task::UpdateSnapshots),
+            TOp::RemoteChildList { child } => remote_child_list(w, *child),
             TOp::Read => {
                 // readers: every entity loads and lists
                 for ca in CAS {
@@ -300,6 +328,18 @@ fn run_case(case: &Case) -> Result<Result<Vec<String>, Bad>, String> {
         let id = w.rt.signer().create_self_signed_id_cert().map_err(|e| e.to_string())?;
         let req = rpki::ca::idexchange::PublisherRequest::new(krill::api::ca::IdCertInfo::from(&id).base64.clone(), PublisherHandle::from_str(PUBX).unwrap(), None);
         w.repo().create_publisher(req, &w.actor).map_err(|e| e.to_string())?;
+    }
+    // two children of ca0 that live elsewhere
+    {
+        let w = sim.w();
+        let mut ids = Vec::new();
+        for (i, c) in REMOTE_CHILDREN.iter().enumerate() {
+            let id = w.rt.signer().create_self_signed_id_cert().map_err(|e| e.to_string())?;
+            ids.push(id.public_key().key_identifier());
+            let req = krill::api::admin::AddChildRequest { handle: rpki::ca::idexchange::ChildHandle::from_str(c).unwrap(), resources: crate::ops::resources_of(1 << (i + 3)), id_cert: id };
+            w.cam().ca_add_child(&rpki::ca::idexchange::CaHandle::from_str(CAS[0]).unwrap(), req, &w.actor, &w.rt).map_err(|e| format!("adding remote child {c}: {e}"))?;
+        }
+        *REMOTE_IDS.lock().unwrap_or_else(|e| e.into_inner()) = ids;
     }
     sim.converge().map_err(fail)?;
     sim.foreign_publisher_base = Some(format!("rsync://krill.example.org/repo/{PUBX}/"));
